@@ -6,7 +6,7 @@ from ..main import run_rule
 
 
 def _rules():
-    from . import (shared, predrules, watchrules, minimiser, C02, C05, C07, C08, C09, C17)
+    from . import (shared, predrules, watchrules, minimiser, C02, C05, C07, C08, C09, C12, C17)
     return [
         ("every solve starts from exactly the assumptions it was given", shared.assumptions_overwritten),
         ("no reason reference is fabricated", shared.no_fabricated_reason),
@@ -34,6 +34,10 @@ def _rules():
         ("lazy reasons of reified propagators keep the literal", C09.r7),
         ("the cached inconsistency of a reified propagator is cleared on synchronise", C09.r3),
         ("arithmetic constraint builders mean what they say", C09.r10),
+        ("affine views: inner operation and rounding by sign of the scale", C12.v1),
+        ("affine views: map / invert arithmetic", C12.v1_arith),
+        ("div_ceil / div_floor sign-case table", C12.v1_div),
+        ("affine views: divisibility guard of contains / remove / (dis)equality", C12.v1_divis),
         ("the …_at_trail_position queries agree", C17.l16),
         ("INCREMENTAL-RESET of un-trailed propagator state", C17.l20),
         ("explanations: direct bound facts name the right variable and direction", C17.l8),
